@@ -334,3 +334,40 @@ fn k_poll_body_merge() {
         }
     }
 }
+
+/// The same header step with the REAL v3 / v5 `Header` implementations of `PollHeader` (instead of the mock),
+/// restricted to outcomes that do not enter the body decoders: body-less packets and header errors.
+// NOT REGISTERED (tier=manual): with the real Header the body decoders become reachable and CBMC does not finish in 280 s.
+//@ id=poll.header-step.real-v3 props=C01,C04,C05,C06,C08,C20 kind=complete tier=manual
+#[kani::proof]
+#[kani::unwind(6)]
+#[kani::stub(<crate::Error as core::convert::From<std::io::Error>>::from, super::arith::stub_error_from_io)]
+#[kani::stub(futures_lite::future::block_on, super::stub_block_on)]
+fn k_poll_header_step_real_v3() {
+    let st = any_header_state();
+    kani::assume(st.control_byte.is_some());
+    let (cb0, idx0, v0) = (st.control_byte.unwrap(), st.var_idx, st.var_int);
+    let mut state: GenericPollPacketState<v3::Header> = GenericPollPacketState::Header(st);
+    let mut rd = HScript { b: kani::any(), mode: [3, 0], ready: 1, calls: 0, cap_ok: true };
+    let b = rd.b[0];
+    kani::assume(b < 128);                       // the length field ends with this byte
+    let rl = v0 + (b as u32) * pow128(idx0);
+    kani::assume(rl == 0 || v3::Header::new_with(cb0, rl).is_err() || cb0 >> 4 >= 12);   // stay out of the body phase
+    let waker = Waker::noop();
+    let mut cx = Context::from_waker(&waker);
+    let out = { let mut fut = GenericPollPacket::new(&mut state, &mut rd); Pin::new(&mut fut).poll(&mut cx) };
+    match v3::Header::new_with(cb0, rl) {
+        Err(_) => assert!(matches!(out, Poll::Ready(Err(Error::InvalidHeader))) || matches!(out, Poll::Ready(Err(Error::InvalidQos(3)))), "C20:poll.real-v3:header-error-passed-through"),
+        Ok(h) => {
+            let bodyless = matches!(h.typ, v3::PacketType::Pingreq | v3::PacketType::Pingresp | v3::PacketType::Disconnect);
+            if bodyless && rl == 0 {
+                match out { Poll::Ready(Ok((t, body, p))) => {
+                    assert!(t == 2 + idx0 as usize && body.len() == 0, "C05:poll.real-v3:bodyless-total-equals-bytes-consumed");
+                    assert!(matches!((h.typ, &p), (v3::PacketType::Pingreq, v3::Packet::Pingreq) | (v3::PacketType::Pingresp, v3::Packet::Pingresp) | (v3::PacketType::Disconnect, v3::Packet::Disconnect)), "C01:poll.real-v3:bodyless-packet-matches-type");
+                }, _ => assert!(false, "C04:poll.real-v3:bodyless-packet-accepted") }
+            } else {
+                assert!(matches!(out, Poll::Ready(Err(Error::InvalidRemainingLength))), "C04:poll.real-v3:length-mismatch-rejected");
+            }
+        }
+    }
+}
